@@ -181,7 +181,7 @@ def emit_run(tier, seed, d, prior=0):
 # and judged by the properties whose view it falls in (C02 sees every file exactly).
 CASE_DIS = {}      # case id -> section-level disagreements of the last emit_run
 OUTCOME_DIS = set()  # case ids whose generation outcome differs between model and implementation
-ITEM = r'(?!\*$).*'    # any item section, not the whole-file section
+ITEM = r'^(?!\*$).'    # any item section, not the whole-file section
 OPFILE = r'src/request/(?!mod\.rs)'
 MODELFILE = r'src/model/(?!mod\.rs)'
 
